@@ -75,6 +75,7 @@ func checkC10(c *Ctx) {
 	r.Rule("R10c", "one content-type dispatch table for every writer and the request binder; Content-Type header class matches the encoder", 10)
 	r.Rule("R10d", "violation field path is the dotted join of all path elements", 3)
 	r.Rule("R10e", "client-side mapping of error responses (Go and TS)", 8)
+	r.Rule("R10i", "TS server: validation failures are answered with the documented 400 {violations} whether or not an onError hook is configured (the ValidationError arm precedes the hook)", 1)
 	r.Rule("R10f", "error interface for *Error messages and the built-in error messages", 4)
 	r.Rule("R10g", "every error response of the request path goes through the hook-aware writer (the pre-hook helpers are called only by each other)", 1)
 
@@ -657,6 +658,36 @@ func checkClientErrorMapping(c *Ctx) {
 			j := strings.Index(t, "JSON.stringify({ message })")
 			ok := i >= 0 && j >= 0 && strings.Contains(t[i:min(len(t), i+120)], "status: 400") && strings.Contains(t[j:min(len(t), j+120)], "status: 500")
 			r.Check(ok, "R10e", "ts-server: {violations} with 400 and {message} with 500", "", "the TS server's error statuses/bodies no longer pair with the clients' mapping")
+			// R10i: in every route's catch block the ValidationError arm comes before the user's onError hook (in all variants)
+			badOrder, nCatch := "", 0
+			for _, v := range sex.Variants {
+				for _, u := range v.Units {
+					txt := u.Text()
+					for off := 0; ; {
+						k := strings.Index(txt[off:], "catch (")
+						if k < 0 {
+							break
+						}
+						k += off
+						end := strings.Index(txt[k:], "\n        },")
+						blk := txt[k:]
+						if end > 0 {
+							blk = txt[k : k+end]
+						}
+						off = k + 7
+						a, b := strings.Index(blk, "instanceof ValidationError"), strings.Index(blk, "onError")
+						if a < 0 && b < 0 {
+							continue
+						}
+						nCatch++
+						if a < 0 || (b >= 0 && b < a) {
+							badOrder = v.DecString()
+						}
+					}
+				}
+			}
+			r.CheckD(badOrder == "" && nCatch > 0, "R10i", "ts-server routes: a ValidationError is answered with 400 {violations} before the onError hook is consulted", "",
+				"in a route's catch block the onError hook is consulted before (or instead of) the ValidationError arm ("+badOrder+"): with a hook configured every validation failure — missing or malformed required header, request validation — is handed to the hook and surfaces as the hook's status (500 {message}) instead of the documented 400 with the violation list", map[string]any{"catch_blocks": nCatch})
 		}
 	}
 }
